@@ -9,6 +9,7 @@
 import KodaModel.SchemaEval
 import KodaModel.Properties.C02
 import KodaModel.Properties.C10
+import KodaModel.Properties.C11Pat
 
 namespace Koda
 
@@ -224,10 +225,16 @@ def PredOK (pr : Printer) (root : J) (ref : Option (List Nat)) (p : PredK) (x : 
     hasKey po (kw "type") = false ∧
     ∀ ev o', allM (fun kv => evalKw ev root ref o' kv.1 kv.2 x) po = some (holds p x)
 
-/-- the accumulated object: evaluates to `b` (at every fuel ≥ 1, as part of any object), is not
+/-- an enclosing object that has neither `properties` nor `prefixItems` (so `additionalProperties` ranges
+    over every member and `items` over every element) -/
+def Good (o' : JObj) : Prop := jGet o' "properties" = none ∧ jGet o' "prefixItems" = none
+
+/-- the accumulated object: evaluates to `b` (at every fuel ≥ `N`, as part of any `Good` object), is not
     nullable, and its `allOf`, if any, is an array -/
-structure AccSem (root : J) (ref : Option (List Nat)) (acc : JObj) (b : Bool) (x : PyVal) : Prop where
-  sem : ∀ n, 1 ≤ n → ∀ o', objEval root ref n o' acc x = some b
+
+structure AccSem (root : J) (ref : Option (List Nat)) (N : Nat) (acc : JObj) (b : Bool) (x : PyVal) : Prop where
+  pos : 1 ≤ N
+  sem : ∀ n, N ≤ n → ∀ o', Good o' → objEval root ref n o' acc x = some b
   notNullable : hasKey acc (kw "nullable") = false
   allOfArr : ∀ e ∈ acc, (e.1 == kw "allOf") = true → ∃ xs, e.2 = .arr xs
 
@@ -286,9 +293,9 @@ theorem evalKw_allOf (ev : J → PyVal → Option Bool) (root : J) (ref : Option
   rfl
 
 /-- one step of `predsSchema` -/
-theorem AccSem_step (pr : Printer) (root : J) (ref : Option (List Nat)) (acc : JObj) (b : Bool) (x : PyVal)
-    (p : PredK) (po : JObj) (ha : AccSem root ref acc b x) (hp : PredOK pr root ref p x)
-    (hpo : predSchema pr p = .ok po) : AccSem root ref (jaddPred acc po) (b && holds p x) x := by
+theorem AccSem_step (pr : Printer) (root : J) (ref : Option (List Nat)) (N : Nat) (acc : JObj) (b : Bool) (x : PyVal)
+    (p : PredK) (po : JObj) (ha : AccSem root ref N acc b x) (hp : PredOK pr root ref p x)
+    (hpo : predSchema pr p = .ok po) : AccSem root ref N (jaddPred acc po) (b && holds p x) x := by
   obtain ⟨hnd, hnn, hna, hnt, hsem⟩ := hp po hpo
   unfold jaddPred
   split
@@ -307,9 +314,10 @@ theorem AccSem_step (pr : Printer) (root : J) (ref : Option (List Nat)) (acc : J
       exact hsem _ _
     split
     · rename_i k0 xs hfind
-      refine ⟨?_, ?_, ?_⟩
-      · intro n hn o'
-        have hacc := ha.sem n hn o'
+      refine ⟨ha.pos, ?_, ?_, ?_⟩
+      · intro n hn o' hg
+        have hn1 : 1 ≤ n := Nat.le_trans ha.pos hn
+        have hacc := ha.sem n hn o' hg
         have hmem : (k0, J.arr xs) ∈ acc := List.mem_of_find?_eq_some hfind
         have hk0 : (k0 == kw "allOf") = true := by
           have := List.find?_some hfind
@@ -319,7 +327,7 @@ theorem AccSem_step (pr : Printer) (root : J) (ref : Option (List Nat)) (acc : J
         refine allM_jset_replace _ (kw "allOf") _ acc k0 (.arr xs) b0 (holds p x) b hfind hb0 ?_ hacc
         simp only [hk0', evalKw_allOf] at hb0 ⊢
         rw [allM_append, hb0]
-        simp only [allM, hpoEval n hn, OB_and_some, Bool.and_true]
+        simp only [allM, hpoEval n hn1, OB_and_some, Bool.and_true]
       · rw [hasKey_jset_ne _ _ _ _ (by decide)]; exact ha.notNullable
       · intro e he hk
         rcases mem_jset _ _ _ _ he with h | h
@@ -341,13 +349,14 @@ theorem AccSem_step (pr : Printer) (root : J) (ref : Option (List Nat)) (acc : J
           exact hnot k0 xs hf
       have habs := (find_none_hasKey acc (kw "allOf")).1 hnone
       rw [jset_absent acc _ _ habs]
-      refine ⟨?_, ?_, ?_⟩
-      · intro n hn o'
+      refine ⟨ha.pos, ?_, ?_, ?_⟩
+      · intro n hn o' hg
+        have hn1 : 1 ≤ n := Nat.le_trans ha.pos hn
         simp only [objEval, allM_append]
-        have hacc := ha.sem n hn o'
+        have hacc := ha.sem n hn o' hg
         simp only [objEval] at hacc
         rw [hacc]
-        simp only [allM, evalKw_allOf, hpoEval n hn, OB_and_some, Bool.and_true]
+        simp only [allM, evalKw_allOf, hpoEval n hn1, OB_and_some, Bool.and_true]
       · rw [hasKey_append, ha.notNullable]; simp only [hasKey, List.any_cons, List.any_nil]; decide
       · intro e he hk
         rcases List.mem_append.1 he with h | h
@@ -363,10 +372,10 @@ theorem AccSem_step (pr : Printer) (root : J) (ref : Option (List Nat)) (acc : J
       simp only [List.any_eq_true]
       exact ⟨e, he, by simpa [hasKey] using hh⟩
     rw [jupdate_absent po acc hfresh hnd]
-    refine ⟨?_, ?_, ?_⟩
-    · intro n hn o'
+    refine ⟨ha.pos, ?_, ?_, ?_⟩
+    · intro n hn o' hg
       simp only [objEval, allM_append]
-      have hacc := ha.sem n hn o'
+      have hacc := ha.sem n hn o' hg
       simp only [objEval] at hacc
       rw [hacc, hsem _ _, OB_and_some]
     · rw [hasKey_append, ha.notNullable, hnn]; rfl
@@ -379,10 +388,10 @@ theorem AccSem_step (pr : Printer) (root : J) (ref : Option (List Nat)) (acc : J
           exact ⟨e, h, hk⟩
         simp [this] at hna
 
-theorem AccSem_preds (pr : Printer) (root : J) (ref : Option (List Nat)) (x : PyVal) :
-    ∀ (ps : List Pred) (acc o : JObj) (b : Bool), AccSem root ref acc b x →
+theorem AccSem_preds (pr : Printer) (root : J) (ref : Option (List Nat)) (N : Nat) (x : PyVal) :
+    ∀ (ps : List Pred) (acc o : JObj) (b : Bool), AccSem root ref N acc b x →
       (∀ p ∈ ps, PredOK pr root ref p.k x) → predsSchema pr acc ps = .ok o →
-      AccSem root ref o (b && ps.all (fun p => holds p.k x)) x := by
+      AccSem root ref N o (b && ps.all (fun p => holds p.k x)) x := by
   intro ps
   induction ps with
   | nil =>
@@ -397,7 +406,7 @@ theorem AccSem_preds (pr : Printer) (root : J) (ref : Option (List Nat)) (x : Py
     | error e => simp [hpo] at h
     | ok po =>
       simp only [hpo] at h
-      have := ih _ o _ (AccSem_step pr root ref acc b x p.k po ha (hp p (by simp)) hpo)
+      have := ih _ o _ (AccSem_step pr root ref N acc b x p.k po ha (hp p (by simp)) hpo)
         (fun q hq => hp q (by simp [hq])) h
       simpa [List.all_cons, Bool.and_assoc] using this
 
@@ -448,7 +457,7 @@ theorem predsSchema_jGet (pr : Printer) (k : String) (hk : kw "allOf" ≠ kw k) 
 /-- no predicate emits `type`, `nullable` or `allOf`, and the keywords of one predicate are distinct -/
 theorem predSchema_keys (pr : Printer) (p : PredK) (po : JObj) (h : predSchema pr p = .ok po) :
     hasKey po (kw "type") = false ∧ hasKey po (kw "nullable") = false ∧ hasKey po (kw "allOf") = false ∧
-    keysNodup po = true := by
+    keysNodup po = true ∧ hasKey po (kw "properties") = false ∧ hasKey po (kw "prefixItems") = false := by
   cases p with
   | min v e =>
     simp only [predSchema] at h
@@ -530,9 +539,9 @@ theorem C11_scalar_schema (pr : Printer) (root : J) (ref : Option (List Nat)) (c
     rw [evalSchema_obj]
     by_cases hty : x.ty = tg
     · -- right type: every keyword is evaluated
-      have hbase : AccSem root ref [(kw "type", .str (kw t))] true x := by
-        refine ⟨?_, by simp only [hasKey, List.any_cons, List.any_nil]; decide, ?_⟩
-        · intro n _ o'
+      have hbase : AccSem root ref 1 [(kw "type", .str (kw t))] true x := by
+        refine ⟨Nat.le_refl 1, ?_, by simp only [hasKey, List.any_cons, List.any_nil]; decide, ?_⟩
+        · intro n _ o' _
           simp only [objEval, allM]
           have : evalKw (evalSchema root ref n) root ref o' (kw "type") (.str (kw t)) x = typeOk (kw t) x := rfl
           rw [this, typeOk_spec tg t ht x]
@@ -540,7 +549,7 @@ theorem C11_scalar_schema (pr : Printer) (root : J) (ref : Option (List Nat)) (c
         · intro e he hk
           simp at he; subst he
           exact absurd hk (by simp only []; decide)
-      have hacc := AccSem_preds pr root ref x ps _ o true hbase (hp hty) hps
+      have hacc := AccSem_preds pr root ref 1 x ps _ o true hbase (hp hty) hps
       have hnull : isNullable o = false := by
         have := (jGet_none_iff o "nullable").2 hacc.notNullable
         simp [isNullable, this]
@@ -550,7 +559,11 @@ theorem C11_scalar_schema (pr : Printer) (root : J) (ref : Option (List Nat)) (c
       have htf : typeFails o x = false := by
         simp [typeFails, hty', typeOk_spec tg t ht x, hty]
       simp only [hnull, htf, Bool.false_and, Bool.false_eq_true, if_false]
-      rw [hacc.sem m (by omega) o]
+      have hgood : Good o := by
+        constructor
+        · rw [predsSchema_jGet pr "properties" (by decide) ps _ o (fun p _ po hpo => (predSchema_keys pr p.k po hpo).2.2.2.2.1) hps]; rfl
+        · rw [predsSchema_jGet pr "prefixItems" (by decide) ps _ o (fun p _ po hpo => (predSchema_keys pr p.k po hpo).2.2.2.2.2) hps]; rfl
+      rw [hacc.sem m (by omega) o hgood]
       simp [hty]
     · -- wrong type: rejected whatever the predicates say
       have hty' : jGet o "type" = some (.str (kw t)) := by
@@ -628,7 +641,7 @@ theorem PredOK_of_sem (pr : Printer) (root : J) (ref : Option (List Nat)) (p : P
     (h : ∀ po, predSchema pr p = .ok po → ∀ (ev : J → PyVal → Option Bool) (o' : JObj),
       allM (fun kv => evalKw ev root ref o' kv.1 kv.2 x) po = some (holds p x)) : PredOK pr root ref p x := by
   intro po hpo
-  obtain ⟨h1, h2, h3, h4⟩ := predSchema_keys pr p po hpo
+  obtain ⟨h1, h2, h3, h4, _, _⟩ := predSchema_keys pr p po hpo
   exact ⟨h4, h2, h3, h1, h po hpo⟩
 
 theorem allM_one {α : Type} (f : α → Option Bool) (a : α) (x : Bool) (ha : f a = some x) : allM f [a] = some x := by
@@ -926,5 +939,72 @@ theorem PredOK_choices (pr : Printer) (root : J) (ref : Option (List Nat)) (vs :
     constructor
     · rintro ⟨v, hv, hf⟩; exact ⟨v, hv, by rw [← (jsonEq_pyEq v x (h v hv)).2]; exact hf⟩
     · rintro ⟨v, hv, hf⟩; exact ⟨v, hv, by rw [(jsonEq_pyEq v x (h v hv)).2]; exact hf⟩
+
+
+/-! #### `pattern`: StartsWith, EndsWith, RegexPredicate, NotBlank -/
+
+theorem kw_pattern (ev : J → PyVal → Option Bool) (root : J) (ref : Option (List Nat)) (o' : JObj) (t s : List Nat) :
+    evalKw ev root ref o' (kw "pattern") (.str t) (.str s) = patHolds t s := rfl
+
+/-- `StartsWith(q)`: the escaped prefix pattern means "starts with `q`" — whatever characters `q` has -/
+theorem PredOK_startsWith (pr : Printer) (root : J) (ref : Option (List Nat)) (q s : List Nat) :
+    PredOK pr root ref (.startsWith (.str q)) (.str s) := by
+  apply PredOK_of_sem
+  intro po hpo ev o'
+  simp only [predSchema, Except.ok.injEq] at hpo
+  subst hpo
+  rw [objEval_one ev root ref o' _ _ _ _ (by rw [kw_pattern]; exact patHolds_prefix q s),
+    holds_of_call (.startsWith (.str q)) (.str s) (isPrefix q s) rfl]
+
+/-- `EndsWith(q)` -/
+theorem PredOK_endsWith (pr : Printer) (root : J) (ref : Option (List Nat)) (q s : List Nat) :
+    PredOK pr root ref (.endsWith (.str q)) (.str s) := by
+  apply PredOK_of_sem
+  intro po hpo ev o'
+  simp only [predSchema, Except.ok.injEq] at hpo
+  subst hpo
+  rw [objEval_one ev root ref o' _ _ _ _ (by rw [kw_pattern]; exact patHolds_suffix q s),
+    holds_of_call (.endsWith (.str q)) (.str s) (isSuffix q s) rfl]
+
+/-- `RegexPredicate(p)`, **partial** (finding D15): the schema *searches* for the pattern, the predicate
+    *matches at the start*; they agree on `s` exactly when the hypothesis holds (e.g. for patterns that
+    begin with `^` and do not end in `$`) -/
+theorem PredOK_regex_partial (pr : Printer) (root : J) (ref : Option (List Nat)) (p : Pat) (s : List Nat)
+    (hne : (p.source == notBlankText) = false) (hagree : p.search s = p.matchStart s) :
+    PredOK pr root ref (.regex p) (.str s) := by
+  apply PredOK_of_sem
+  intro po hpo ev o'
+  simp only [predSchema, Except.ok.injEq] at hpo
+  subst hpo
+  rw [objEval_one ev root ref o' _ _ _ _ (by rw [kw_pattern]; exact patHolds_user p s hne),
+    holds_of_call (.regex p) (.str s) (p.matchStart s) rfl, hagree]
+
+/-- D15 in the model: `a` on `"ba"` -/
+example : (⟨false, [.lit 97], false⟩ : Pat).search [98, 97] = true ∧ (⟨false, [.lit 97], false⟩ : Pat).matchStart [98, 97] = false := by
+  constructor
+  · simp [Pat.search, matchEls, atEnd, List.range, List.range.loop]
+  · simp [Pat.matchStart, matchEls]
+
+/-- a pattern anchored at the start (and not at the end) is read alike by schema and predicate -/
+theorem regex_agree_anchored (els : List PatEl) (s : List Nat) :
+    (⟨true, els, false⟩ : Pat).search s = (⟨true, els, false⟩ : Pat).matchStart s := by
+  simp [Pat.search, Pat.matchStart]
+
+/-- `NotBlank`, **partial** (finding D13): the pattern `^(?!\s*$).+` versus `s.strip() != ""` -/
+theorem PredOK_notBlank_partial (pr : Printer) (root : J) (ref : Option (List Nat)) (s : List Nat)
+    (hagree : notBlankPattern s = !(stripWith isSpaceStr s).isEmpty) :
+    PredOK pr root ref .notBlank (.str s) := by
+  apply PredOK_of_sem
+  intro po hpo ev o'
+  simp only [predSchema, Except.ok.injEq] at hpo
+  subst hpo
+  have hp : patHolds (kw "^(?!\\s*$).+") s = some (notBlankPattern s) := by
+    have : (kw "^(?!\\s*$).+" == notBlankText) = true := by decide
+    simp [patHolds, this]
+  rw [objEval_one ev root ref o' _ _ _ _ (by rw [kw_pattern]; exact hp),
+    holds_of_call .notBlank (.str s) (!(stripWith isSpaceStr s).isEmpty) rfl, hagree]
+
+/-- D13 in the model: `"\na"` is not blank, the pattern rejects it -/
+example : notBlankPattern [10, 97] = false ∧ (!(stripWith isSpaceStr [10, 97]).isEmpty) = true := by decide
 
 end Koda
